@@ -37,11 +37,13 @@ cls(
         "alt_svc_headers": "strs",
         "_quic_addresses": "const ()",
         "wsgi_max_body_size": "int",
+        "_bind": "strs", "_insecure_bind": "strs", "_quic_bind": "strs", "_root_path": "str",
     },
     immutable=["log", "keep_alive_max_requests", "keep_alive_timeout", "h2_max_concurrent_streams", "h2_max_header_list_size",
                "h2_max_inbound_frame_size", "h11_max_incomplete_size", "h11_pass_raw_headers", "root_path", "server_names",
                "websocket_max_message_size", "websocket_ping_interval", "max_app_queue_size", "read_timeout",
-               "include_date_header", "include_server_header", "alt_svc_headers", "_quic_addresses", "wsgi_max_body_size"],
+               "include_date_header", "include_server_header", "alt_svc_headers", "_quic_addresses", "wsgi_max_body_size",
+               "_bind", "_insecure_bind", "_quic_bind", "_root_path"],
 )
 
 # ---------------------------------------------------------------------------------- WorkerContext
@@ -67,6 +69,3 @@ fn("hypercorn.typing:TaskGroup.spawn_app", params={"app": "opaque", "config": "o
    trusted_reason="interface; refined by both TaskGroup.spawn_app (C16): creates the queue and schedules _handle without suspending",
    ghost_post=["caller_set('g_app_started', True)", "caller_count('g_spawned')"])
 
-# response_headers is verified as a unit of its own (C02.cfg / C19); callers use the contract
-fn("hypercorn.config:Config.response_headers", params={"protocol": "str"}, returns="hdrs", modifies=[], effect="atomic",
-   props=("C02", "C19"))
